@@ -5,8 +5,11 @@ import (
 	"context"
 	"crypto/sha256"
 	"encoding/binary"
+	"encoding/gob"
 	"errors"
 	"fmt"
+	zerologger "github.com/rs/zerolog/log"
+	"io"
 	"os"
 	"sort"
 	"sync"
@@ -68,12 +71,12 @@ func initBLS() {
 
 // NewFixture creates nWallets wallets with perWallet accounts each (interop keys), plus,
 // when withLocked, an account "Locked" in the last wallet whose passphrase is not configured.
-func NewFixture(ctx context.Context, nWallets, perWallet int, withLocked bool) (*Fixture, error) {
+func NewFixture(ctx context.Context, nWallets, perWallet int, withLocked bool, extraNames ...string) (*Fixture, error) {
 	initBLS()
 	enc := keystorev4.New()
 	fx := &Fixture{}
 	keys := append(append([][]byte{}, daemon.Wallet1Keys...), daemon.Wallet2Keys...)
-	for i := len(keys); i < nWallets*perWallet+1; i++ {
+	for i := len(keys); i < nWallets*perWallet+1+len(extraNames); i++ {
 		h := sha256.Sum256([]byte(fmt.Sprintf("verif key %d", i)))
 		h[0] = 0 // below the group order
 		keys = append(keys, h[:])
@@ -85,7 +88,7 @@ func NewFixture(ctx context.Context, nWallets, perWallet int, withLocked bool) (
 		pass string
 		info *AcctInfo
 	}
-	var jobs []job
+	var jobs, extraJobs []job
 	id := 1
 	for w := 0; w < nWallets; w++ {
 		wname := fmt.Sprintf("Wallet %d", w+1)
@@ -104,12 +107,26 @@ func NewFixture(ctx context.Context, nWallets, perWallet int, withLocked bool) (
 			fx.Accounts = append(fx.Accounts, info)
 			id++
 		}
+		if w == 0 {
+			// further accounts of the first wallet, whose names differ from a regular account's only by blanks
+			for _, name := range extraNames {
+				info := &AcctInfo{Wallet: wname, Name: name, ID: 0, Usable: true, Signer: true}
+				extraJobs = append(extraJobs, job{wallet, name, nil, "pass", info})
+			}
+		}
 		if withLocked && w == nWallets-1 {
 			info := &AcctInfo{Wallet: wname, Name: "Locked", ID: id, Usable: false, Signer: true}
 			jobs = append(jobs, job{wallet, info.Name, keys[(id-1)%len(keys)], "not configured", info})
 			fx.Accounts = append(fx.Accounts, info)
 			id++
 		}
+	}
+	for _, j := range extraJobs {
+		j.info.ID = id
+		j.key = keys[(id-1)%len(keys)]
+		jobs = append(jobs, j)
+		fx.Accounts = append(fx.Accounts, j.info)
+		id++
 	}
 	// keystore encryption is slow (tens of ms per account): import sequentially per wallet is
 	// required by the wallet's index, so only parallelise across wallets.
@@ -204,6 +221,7 @@ type Event struct {
 type Instance struct {
 	fx         *Fixture
 	Dir        string
+	Verbose    bool
 	AdminIPs   []string
 	Perms      map[string][]*checker.Permissions
 	Rules      *standardrules.Service
@@ -224,10 +242,11 @@ type InstanceOpts struct {
 	Perms    map[string][]*checker.Permissions
 	Locker   locker.Service // nil = real syncmap locker
 	Dir      string         // "" = fresh temp dir
+	Verbose  bool           // services log at trace level (into a discarding writer): the diagnostic code paths run
 }
 
 func NewInstance(ctx context.Context, fx *Fixture, o InstanceOpts) (*Instance, error) {
-	inst := &Instance{fx: fx, AdminIPs: o.AdminIPs, Perms: o.Perms, Dir: o.Dir}
+	inst := &Instance{fx: fx, AdminIPs: o.AdminIPs, Perms: o.Perms, Dir: o.Dir, Verbose: o.Verbose}
 	if inst.Dir == "" {
 		d, err := os.MkdirTemp("", "vh-rules-")
 		if err != nil {
@@ -255,7 +274,14 @@ func NewInstance(ctx context.Context, fx *Fixture, o InstanceOpts) (*Instance, e
 func setHook(inst *Instance) { verifhook.Set(inst.hook) }
 
 func (inst *Instance) open(ctx context.Context) error {
+	level := zerolog.Disabled
+	if inst.Verbose {
+		level = zerolog.TraceLevel
+		zerologger.Logger = zerolog.New(io.Discard)
+		zerolog.SetGlobalLevel(zerolog.TraceLevel)
+	}
 	rulesSvc, err := standardrules.New(ctx,
+		standardrules.WithLogLevel(level),
 		standardrules.WithStoragePath(inst.Dir),
 		standardrules.WithAdminIPs(inst.AdminIPs),
 	)
@@ -263,7 +289,7 @@ func (inst *Instance) open(ctx context.Context) error {
 		return err
 	}
 	inst.Rules = rulesSvc
-	realRuler, err := goruler.New(ctx, goruler.WithLocker(inst.Locker), goruler.WithRules(rulesSvc))
+	realRuler, err := goruler.New(ctx, goruler.WithLogLevel(level), goruler.WithLocker(inst.Locker), goruler.WithRules(rulesSvc))
 	if err != nil {
 		return err
 	}
@@ -278,6 +304,7 @@ func (inst *Instance) open(ctx context.Context) error {
 		return err
 	}
 	signerSvc, err := standardsigner.New(ctx,
+		standardsigner.WithLogLevel(level),
 		standardsigner.WithUnlocker(&faultUnlocker{inst: inst, real: unl}),
 		standardsigner.WithChecker(&faultChecker{inst: inst, real: checkerSvc}),
 		standardsigner.WithFetcher(&faultFetcher{inst: inst, real: memf}),
@@ -304,6 +331,9 @@ func (inst *Instance) Restart(ctx context.Context) error {
 }
 
 func (inst *Instance) Close(ctx context.Context) {
+	if inst.Verbose {
+		zerolog.SetGlobalLevel(zerolog.Disabled)
+	}
 	verifhook.Set(nil)
 	_ = inst.Rules.Close(ctx)
 	_ = os.RemoveAll(inst.Dir)
@@ -541,11 +571,26 @@ func (inst *Instance) ReadStore(ctx context.Context) (*StoreView, error) {
 		}
 		switch k[48] {
 		case 0x02:
+			if len(v) > 0 && v[0] != 1 {
+				// a record in the format of early releases (Go's gob encoding), which the rules still accept
+				var st signBeaconAttestationState
+				if gob.NewDecoder(bytes.NewReader(v)).Decode(&st) == nil {
+					sv.Att[id] = AttRec{st.SourceEpoch, st.TargetEpoch}
+				}
+				continue
+			}
 			if len(v) != 17 || v[0] != 1 {
 				continue // undecodable record (seeded by a fault case): the model is told through a fetch fault
 			}
 			sv.Att[id] = AttRec{int64(binary.LittleEndian.Uint64(v[1:9])), int64(binary.LittleEndian.Uint64(v[9:17]))}
 		case 0x03:
+			if len(v) > 0 && v[0] != 1 {
+				var st signBeaconProposalState
+				if gob.NewDecoder(bytes.NewReader(v)).Decode(&st) == nil {
+					sv.Prop[id] = st.Slot
+				}
+				continue
+			}
 			if len(v) != 9 || v[0] != 1 {
 				continue
 			}
